@@ -16,19 +16,24 @@ def const(tree, name, default=''):
 
 # clauses added to a property's check after the seeded waves (the modules' EXPLANATION constants describe the original rules)
 MORE = {
- 'C07': "(R07.4) component order of the linearised Hessian; the caller's component index is never applied to the weight column; (R07.5) the fixed coordinate of a boundary function is inserted at position len(x) - axis.",
- 'C08': "(R08.4) update() iterates the variable sequence itself; (R08.6 = R01.7) bounding-box offsets in Gauss-node units of the common node count.",
- 'C10': "(R10.5) restrict / restrict_rhs / restrict_matrix / extend / complete are compared after inlining with the selection operators they must apply (rows R_free_v, columns R_free).",
+ 'C09': '(R09.9 = R17.8) f is evaluated at the mapped points iff f_physical.',
+ 'C06': '(R06.G/G12) a double sum restricted to a triangle with doubled off-diagonal weight requires a symmetric summand.',
+ 'C05': '(R05.G/G2) a memo keyed by attributes of its inputs (degree, dof count) while the value is computed from the whole knot vectors.',
+ 'C04': '(R04.G/G11) indices are scaled between levels by 2**(level difference), never by 2*(level difference).',
+ 'C03': '(R03.11 = R04.6) the disparity the level-wise assembly relies on is established by the marking closure started on every level.',
+ 'C07': "(R07.4) component order of the linearised Hessian; the caller's component index is never applied to the weight column; (R07.5) the fixed coordinate of a boundary function is inserted at position len(x) - axis. (R07.2) views handed out by a method of self through a tuple result are tracked to in-place writes in the caller; (R07.6) the corner weights of every circular arc depend on the angle.",
+ 'C08': "(R08.4) update() iterates the variable sequence itself; (R08.6 = R01.7) bounding-box offsets in Gauss-node units of the common node count. (R08.4) the constants array is allocated by the generated __init__ only.",
+ 'C10': "(R10.5) restrict / restrict_rhs / restrict_matrix / extend / complete are compared after inlining with the selection operators they must apply (rows R_free_v, columns R_free). (R10.5) the lifted right-hand side is compared as a matrix-product normal form (order and transposition of the factors); (R10.2) vector Dirichlet values are taken component by component, not by a C-order ravel of the whole array.",
  'C11': "(R11.1) the matrix handed to the CSR kernels is only converted between storage formats; (R11.2) provenance of the sets each strategy extends; (R11.6) the restricted residual is computed after the last update of the iterate on every path; (R11.8 = R04.4) cache invalidation.",
- 'C12': "(R12.G) memoised factorisations are keyed by everything they depend on.",
+ 'C12': "(R12.G) memoised factorisations are keyed by everything they depend on. (R12.3) no exit between the append of the time and the append of the state.",
  'C13': "(R13.1) numeric attributes are text-encoded, lossy calls inside hash_key are reported; (R13.3) add() refuses as soon as the memoised hash exists.",
- 'C14': "(R14.4) each candidate flip starts from the unflipped grid.",
- 'C15': "(R15.5) the kernels receive the structure's own, unfiltered block pattern; (R15.8) the per-level pattern comes from the support search on every level.",
- 'C16': "(R16.1) adjoint and transpose traverse the operands in the same order; (R16.4) accumulators are not narrowed to the first operand's dtype; (R16.5) a cyclic axis move is not replaced by an exchange.",
- 'C17': "(R17.1) the corrective branch covers info > 0; (R17.7) load vector and integral use one tensor Gauss rule with the common node count.",
- 'C18': "(R18.2) tensor.asarray(X) aliases X.",
- 'C19': "(R19.1) the end knots are exact copies of a and b; (R19.3) the vectorised span search is stateless; (R19.5) knot differences come from the knot array.",
- 'C20': "(R20.5) the rebuild is reached for every ImportError; (R20.6) a process removes only its own scratch directory and creates nothing importable under the cache directory before publication.",
+ 'C14': "(R14.4) each candidate flip starts from the unflipped grid. (R14.G/G14) a size derived from a container is not cached before the container is compacted in the same method.",
+ 'C15': "(R15.5) the kernels receive the structure's own, unfiltered block pattern; (R15.8) the per-level pattern comes from the support search on every level. (R15.5) the dispatch on the level count is evaluated for L = 1..4; (R15.9) local row numbers refer to the list as passed by the caller.",
+ 'C16': "(R16.1) adjoint and transpose traverse the operands in the same order; (R16.4) accumulators are not narrowed to the first operand's dtype; (R16.5) a cyclic axis move is not replaced by an exchange. (R16.3) the flag that admits the square-only Kronecker routine is computed factor by factor; a `continue` of a block-row scan is not a `break` (R16.0).",
+ 'C17': "(R17.1) the corrective branch covers info > 0; (R17.7) load vector and integral use one tensor Gauss rule with the common node count. (R17.8) f_physical -- not the presence of a geometry -- selects the evaluation at mapped points; project_L2 takes the Kronecker shortcut only without geometry; (R17.G/G13) a slice bounded by the negated degree needs the degree-0 case.",
+ 'C18': "(R18.2) tensor.asarray(X) aliases X. (R18.7 = R16.5) mode products put the new axis back by a cyclic move; (R18.8) negation negates exactly one factor of each product.",
+ 'C19': "(R19.1) the end knots are exact copies of a and b; (R19.3) the vectorised span search is stateless; (R19.5) knot differences come from the knot array. (R19.7) make_knots uses its parameters as passed (no clamp).",
+ 'C20': "(R20.5) the rebuild is reached for every ImportError; (R20.6) a process removes only its own scratch directory and creates nothing importable under the cache directory before publication. (R20.5) every creation of a shared directory tolerates a concurrent creator (exist_ok / caught FileExistsError), a preceding exists() test does not count.",
 }
 
 props = [json.loads(l) for l in open(os.path.join(HERE, 'properties.jsonl'))]
@@ -60,7 +65,10 @@ for p in props:
                   'comparison, +-1 offset, dropped keyword or conjunct, one variable replaced by another) is a violation, any other '
                   'rewrite gives no verdict; and (R%s.G) the same functions are searched for memoisation and forwarding defect patterns '
                   '(stale value after a memo miss, under-keyed memo, memo not reset by a state writer, rebound option forwarded, '
-                  'configuration not inherited by a derived object, error estimate by difference of squares, memo hit by tolerant equality).'
+                  'configuration not inherited by a derived object, error estimate by difference of squares, memo hit by tolerant equality, memo keyed by a '
+                  'projection of its inputs, linear instead of dyadic level factor, triangular sum of an asymmetric summand, slice bounded by a '
+                  'negated degree, size cached before its container is rewritten).  Before any rule runs, spelling-only differences from the '
+                  'confirmed reference (renamed locals, new temporaries, equivalent statement forms) are normalised away (sa/alpha.py).'
                   % (pid[1:], pid[1:]) +
                   ' A pass means every enumerated structural obligation is met by /repo as it is now; it is a necessary-condition '
                   'check over all inputs the code handles, not a statement about numerical values.'),
